@@ -49,6 +49,7 @@ def string_to_float(series: pd.Series, state: dict) -> pd.Series:
 
 
 @Float.register_relationship(Complex, pd.Series)
+@series_handle_nulls
 def complex_is_float(series: pd.Series, state: dict) -> bool:
     return all(np.imag(series.values) == 0)
 
